@@ -573,7 +573,15 @@ class RaceHarness(Harness):
         def handled(cell, msg):
             if type(msg).__name__ == "CompleteCurrentTask" and cell.aid in pending_cct:
                 pending_cct.remove(cell.aid)
-                cct.append((sim_clock[0].now, cell.aid))
+                inst = cell.inst
+                try:
+                    if not inst.complete._flag:
+                        return  # ignored: the worker had already finished that element and waits at the next join point
+                    idx = inst.next_task_index if inst.at_joinpoint() else inst.current_task_index
+                    names = {a.task.task.name for a in inst.client_allocations.tasks(idx) if hasattr(a.task, "task")}
+                except Exception:
+                    return
+                cct.append((sim_clock[0].now, cell.aid, names))
 
         sim_clock = []
 
@@ -768,11 +776,11 @@ class RaceHarness(Harness):
         # 3b. once a worker has handled CompleteCurrentTask, each of its clients issues at most one further request of the element
         #     (the one whose throttle sleep was already running; the flag is re-read after every response)
         spans = info["element_spans"]
-        for T, waid in cct:
-            running = [ei for ei, sp in spans.items() if sp["first_send"] <= T]
-            if not running:
+        for T, waid, names in cct:
+            eis = {info["element_of"][n] for n in names if n in info["element_of"]}
+            if len(eis) != 1:
                 continue
-            ei = max(running)
+            ei = eis.pop()
             el = schedule[ei]
             if "parallel" not in el or not el["parallel"].get("completed-by"):
                 continue
@@ -780,15 +788,16 @@ class RaceHarness(Harness):
             mine = set((worker_clients or {}).get(waid, []))
             later = {}
             for (task, client, key), t_first in info["first_send_of_request"].items():
-                if client in mine and info["element_of"].get(task) == ei and task != cb and t_first > T:
+                if client in mine and task in names and task != cb and t_first > T:
                     later.setdefault((task, client), []).append(t_first)
             for (task, client), ts in later.items():
                 if len(ts) > 1:
                     bad("completed-by", "kept-running-after-complete", f"element {ei}: client {client} issued {len(ts)} further requests of task {task} after its worker had handled CompleteCurrentTask at {T:.6f} (at {sorted(ts)[:3]})")
                     break
         # 3a. CompleteCurrentTask only while an element with completed-by is running
-        if cct and not any("parallel" in el and el["parallel"].get("completed-by") for el in schedule):
-            bad("completed-by", "spurious-broadcast", f"CompleteCurrentTask was delivered {len(cct)} times although no element uses completed-by")
+        probes_cct_delivered = info["probes"].get("complete_current_task_delivered", 0)
+        if probes_cct_delivered and not any("parallel" in el and el["parallel"].get("completed-by") for el in schedule):
+            bad("completed-by", "spurious-broadcast", f"CompleteCurrentTask was delivered {probes_cct_delivered} times although no element uses completed-by")
 
     def check_task(self, cfg, ei, t, cb, info, bad, strict):
         """returns 'full' | 'some-client-full' | 'cut' | 'skipped'"""
